@@ -49,6 +49,11 @@ def gen_op(rng, root, depth, dflt, n, alphabet, structural=False):
         return {"k": "ref", "p": [rng.randrange(-1, n + 1) for _ in range(ln)]}
     if k == "posref":
         return {"k": "posref", "at": path, "c": c}
+    if k == "get":
+        ln = rng.randrange(1, depth + 1)
+        return {"k": "get", "p": [rng.randrange(-1, n + 1) for _ in range(ln)]}
+    if k == "query":
+        return {"k": "query", "at": path, "q": rng.choice(["eq", "count", "isempty", "iter", "uncompress", "add", "or"])}
     if k == "append":
         # mostly legal (beyond the last coordinate), sometimes order-violating
         last = f.coords[-1] if f.coords else -1
@@ -130,8 +135,28 @@ def apply_op(root, depth, dflt, op):
         if k == "ref":
             root.getPayloadRef(*op["p"])
             return "ok"
+        if k == "get":
+            root.getPayload(*op["p"])
+            return "ok"
         f = locate(root, op["at"])
         sub_depth = depth - len(op["at"])
+        if k == "query":
+            q = op["q"]
+            if q == "eq":
+                f == f
+            elif q == "count":
+                f.countValues()
+            elif q == "isempty":
+                f.isEmpty()
+            elif q == "iter":
+                list(f)
+            elif q == "uncompress":
+                f.uncompress()
+            elif q == "add" and sub_depth == 1:
+                f + f
+            elif q == "or":
+                list(f | f)
+            return "ok"
         if k == "posref":
             f.getPositionRef(op["c"])
         elif k == "append":
@@ -225,11 +250,14 @@ def run_history(case, alphabet, check_mirror):
     for _ in range(case["len"]):
         op = gen_op(rng, root, depth, dflt, n, alphabet, structural)
         before = H.snapshot(root)
+        rb = H.rank_paths(tensor) if (check_mirror and tensor is not None) else None
         outcome = apply_op(root, depth, dflt, op)
         after = H.snapshot(root)
         st = {"op": op, "before": before, "after": after, "outcome": outcome}
         if check_mirror and tensor is not None:
             st["mirror"] = H.rank_mirror(tensor)
+            st["ranks_before"] = rb
+            st["ranks_after"] = H.rank_paths(tensor)
         steps.append(st)
         if outcome.startswith("ERR") or not _wellformed_json(after, depth):
             break       # later steps on a broken tree say nothing new
